@@ -13,7 +13,7 @@ RULE = ("random spectra (integer counts, 40% zeros, fractional values with a tot
         "shape: (1) the combined `sfs view` call vs piping through single-option calls (-O npy between steps, text at the "
         "end): stdout must be byte-identical; (2) the combined call vs the model's view_run within 0.5e-6 + 1e-9*sum; (3) "
         "`--mask-monomorphic` alone zeroes exactly the first and last entry; `--normalize` alone sums to one within 1e-9 "
-        "and preserves ratios; no options reproduces the input text. non-trivial = at least two options set")
+        "and preserves ratios; no options reproduces the input text. non-trivial = at least two options set; the projection target spelled --project-shape, -p / --project-individuals, with '=' attached")
 
 
 def fmt(l):
@@ -70,6 +70,11 @@ def check(rep, tier, seed):
             if up:
                 to = [rng.randrange(1, n + 1) for n in cur]
                 projarg, pp = ["--project-shape", ",".join(map(str, to))], fmt(to)
+                if rng.random() < 0.5:
+                    # the other spellings of the same target: by individuals (shape 2i+1), long options, '=' attached
+                    to = [m if m % 2 == 1 else (m - 1 if m > 1 else 1) for m in to]
+                    ind = ",".join(str((m - 1) // 2) for m in to)
+                    projarg, pp = rng.choice([["-p", ind], ["--project-individuals", ind], ["--project-individuals=" + ind], ["--project-shape=" + ",".join(map(str, to))]]), fmt(to)
             maskarg = ["--mask-monomorphic"] if uk else []
             normarg = ["--normalize"] if un else []
             inp = text_spectrum(sh, data)
